@@ -3,11 +3,11 @@ import Std.Data.HashMap
 namespace PolyVerif.Driver.C05
 open PolyVerif PolyVerif.Seqhash PolyVerif.Transform
 
-/-- Independent reading of the canonical representative: least rotation (arg-min spec) and/or
-lesser strand, with the complement taken from the IUPAC code-set spec (U complemented to A, as RNA pairs). -/
-def specCompl (c : Char) : Char := if c == 'U' then 'A' else if c == 'Z' then Char.ofNat 0 else Spec.complCode c
-def specRc (s : Str) : Str := s.reverse.map specCompl
+/-- Independent reading of the other strand (`C04.specRc`: reverse + code-set complement, U complemented
+to A as RNA pairs, Z to the zero rune). -/
+def specRc (s : Str) : Str := C04.specRc s
 
+/-- Independent reading of the canonical representative: least rotation (arg-min spec) and/or lesser strand. -/
 def specCanon (s : Str) (circ ds : Bool) : Str :=
   match circ, ds with
   | true, true => Spec.lexMin (Spec.leastRotation s) (Spec.leastRotation (specRc s))
@@ -33,11 +33,30 @@ def allWords (alpha : Str) : Nat → List Str
   | 0 => [[]]
   | n + 1 => alpha.flatMap fun c => (allWords alpha n).map (c :: ·)
 
+/-- BRUTE-FORCE orbit of a (normalised) sequence: every rotation when circular, of the sequence and —
+when double-stranded — of its other strand (`specRc`: the independent code-set complement).  Written
+with `drop`/`take` over every offset; no canonical form, no least rotation. -/
+def orbit (s : Str) (circ ds : Bool) : List Str :=
+  let rots := fun (t : Str) => if circ then t :: (List.range t.length).map (fun k => t.drop k ++ t.take k) else [t]
+  rots s ++ (if ds then rots (specRc s) else [])
+
+/-- "the same molecule", decided by enumeration: one lies in the orbit of the other -/
+def sameMolecule (a b : Str) (circ ds : Bool) : Bool := (orbit a circ ds).contains b || (orbit b circ ds).contains a
+
+/-- the class of known finding C05-dna-u-strand, exactly: double-stranded, type DNA (under RNA `U` has
+been rewritten), at least one of the two sequences contains `U`, and the two are the same molecule once
+`U` is read as `T` (they differ only by letters whose complements coincide, up to rotation/strand) -/
+def knownPair (ty : String) (ds : Bool) (w w' : Str) (circ : Bool) : Bool :=
+  let fold := fun (s : Str) => s.map fun c => if c == 'U' then 'T' else c
+  ds && ty == "DNA" && (w.contains 'U' || w'.contains 'U') && sameMolecule (fold w) (fold w') circ ds
+
 /-- cases:
   `form s ty circ ds`        : one Hash call; value must be the published v1 form of the canonical representative,
                                or an error exactly when the input is not acceptable
   `partition alpha n ty circ ds` : Hash of every word of length n over alpha (harness op `hashall`); the partition by
-                               hash must coincide with the partition by canonical representative -/
+                               hash must coincide with the partition into molecules computed by BRUTE FORCE (enumerated orbits under
+                               rotation if circular and strand exchange if double-stranded): same hash => same molecule, and every
+                               member of a word's orbit has the word's hash -/
 def render (f : List String) : List String :=
   match f with
   | ["form", s, ty, circ, ds] => ["hash", s, ty, circ, ds]
@@ -67,18 +86,47 @@ def judge (f out : List String) : Verdict :=
       let hs := match fields with | [joined] => joined.splitOn "," | fs => fs
       if hs.length != ws.length then { corr := false, judge := some false, cls := "partition", detail := "count mismatch" } else
       let c := C04.b circ; let d := C04.b ds
-      -- hash -> canon and canon -> hash must both be functional
-      let step := fun (acc : Bool × Std.HashMap String String × Std.HashMap String String × Bool) (p : Str × String) =>
-        let (ok, h2c, c2h, corr) := acc
-        let (w, h) := p
-        let can := String.ofList (specCanon (specNorm w ty) c d)
-        let ok1 := match h2c[h]? with | some can' => can' == can | none => true
-        let ok2 := match c2h[can]? with | some h' => h' == h | none => true
-        let mh := C04.outStr (hash Blake3.sum256 w ty c d)
-        (ok && ok1 && ok2, h2c.insert h can, c2h.insert can h, corr && mh == ["ok", h])
-      let (ok, _, c2h, corr) := (ws.zip hs).foldl step (true, {}, {}, true)
-      { corr := corr, judge := some ok, cls := "partition/" ++ specTag ty c d ++ "/" ++ n,
-        detail := if ok && corr then s!"classes={c2h.size}" else "partition by hash differs from orbit partition (or model differs)" }
+      -- correspondence: the model's hash of every word
+      let corr := (ws.zip hs).all fun (w, h) => C04.outStr (hash Blake3.sum256 w ty c d) == ["ok", h]
+      -- the sequences the hashes are about: normalised words (upper case; U read as T under RNA)
+      let nws := ws.map fun w => specNorm w ty
+      let key := fun (w : Str) => String.ofList w
+      -- word -> hash (two words with the same normal form must have the same hash) and hash -> words
+      let (w2h, h2w, consistent) := (nws.zip hs).foldl
+        (fun (acc : Std.HashMap String String × Std.HashMap String (List Str) × Bool) (p : Str × String) =>
+          let (w2h, h2w, ok) := acc
+          let (w, h) := p
+          match w2h[key w]? with
+          | some h' => (w2h, h2w, ok && h' == h)
+          | none => (w2h.insert (key w) h, h2w.insert h (w :: (h2w.getD h [])), ok))
+        ({}, {}, true)
+      -- (1) separation: two words with the same hash must be the same molecule (brute-force orbits)
+      let sepFails : List (Str × Str) := h2w.fold (fun acc _ cl =>
+        let orbs := cl.map fun w => (w, orbit w c d)
+        let rec pairs : List (Str × List Str) → List (Str × Str) → List (Str × Str)
+          | [], acc => acc
+          | (w, ow) :: rest, acc =>
+            pairs rest (rest.foldl (fun acc (w', ow') => if ow.contains w' || ow'.contains w then acc else (w, w') :: acc) acc)
+        pairs orbs acc) []
+      -- (2) completeness: every member of a word's orbit that is itself a word of the family has the word's hash
+      let compFails : List (Str × Str) := (nws.zip hs).foldl (fun acc (w, h) =>
+        (orbit w c d).foldl (fun acc o =>
+          match w2h[key o]? with
+          | some h' => if h' == h then acc else (w, o) :: acc
+          | none => acc) acc) []
+      let fails := sepFails ++ compFails
+      let allKnown := fails.all fun (w, w') => knownPair ty d w w' c
+      let ok := consistent && fails.isEmpty
+      let kf := !fails.isEmpty && consistent && allKnown
+      { corr := corr, judge := some ok,
+        cls := (if kf then "kf:C05-dna-u-strand/" else "") ++ "partition/" ++ specTag ty c d ++ "/" ++ alpha ++ "/" ++ n,
+        detail := if ok && corr then s!"classes={h2w.size}"
+          else if !corr then "model differs from the implementation on some word"
+          else if !consistent then "two words with the same normalised sequence have different hashes"
+          else
+            let show2 := fun (p : Str × Str) => String.ofList p.1 ++ "~" ++ String.ofList p.2
+            s!"separation failures (same hash, not the same molecule): {sepFails.length} e.g. {(sepFails.take 3).map show2}; " ++
+            s!"completeness failures (same molecule, different hash): {compFails.length} e.g. {(compFails.take 3).map show2}" }
     | _ => { corr := false, judge := some false, cls := "partition", detail := "bad reply" }
   | _ => { corr := false, judge := none, cls := "bad-case" }
 
